@@ -8,6 +8,17 @@ From RecordUpdate Require Import RecordUpdate.
 Definition effs_of (o : outcome) : list eff :=
   match o with Done _ effs => effs | Proto _ effs => effs | Panic _ => [] end.
 
+(** the mux a dispatcher function runs on: for a received message the occupancy of a closed
+    listener queue counts as 0 ([Endpoint.step_opt], [Recv]) *)
+Definition disp_mux (e : ep) (a : act) : mux :=
+  match a with
+  | Recv _ _ => if listener_alive e then mx e else mx e <| lq_wait := 0 |> <| lq_nowait := 0 |>
+  | _ => mx e
+  end.
+Lemma disp_mux_same e a :
+  ports (disp_mux e a) = ports (mx e) /\ remote_listener_dropped (disp_mux e a) = remote_listener_dropped (mx e).
+Proof. destruct a; cbn [disp_mux]; auto. destruct (listener_alive e); auto. Qed.
+
 (** the outcome of the dispatcher function run by a step (none for user / helper-task actions) *)
 Definition disp_outcome (e : ep) (a : act) : option outcome :=
   match a with
@@ -15,7 +26,7 @@ Definition disp_outcome (e : ep) (a : act) : option outcome :=
   | DConn => match cq e with ev :: _ => Some (handle_event (mx e) ev) | [] => None end
   | DListenerDropped => Some (handle_event (mx e) EListenerDropped)
   | DGoodbye => Some (handle_event (mx e) EGoodbye)
-  | Recv m n => Some (handle_received (mx e) m n)
+  | Recv m n => Some (handle_received (disp_mux e a) m n)
   | _ => None
   end.
 
@@ -228,7 +239,7 @@ Qed.
 (** * Decomposition of a step *)
 Lemma step_disp e a e' o :
   step_opt e a = Some e' -> disp_outcome e a = Some o ->
-  exists e1, e' = finish e1 o /\ mx e1 = mx e /\ alloc e1 = alloc e /\ connects e1 = connects e /\
+  exists e1, e' = finish e1 o /\ mx e1 = disp_mux e a /\ alloc e1 = alloc e /\ connects e1 = connects e /\
              dead e1 = dead e /\ panicked e1 = panicked e.
 Proof.
   unfold step_opt. destruct (negb (alive e)); [discriminate|].
@@ -240,7 +251,7 @@ Proof.
     intros H1 H2. inj H1. inj H2. eexists. split; [reflexivity|]. prj. auto 10.
   - destruct (_ && _); [|discriminate]. intros H1 H2. inj H1. inj H2. eexists. split; [reflexivity|]. auto 10.
   - destruct (_ && _); [|discriminate]. intros H1 H2. inj H1. inj H2. eexists. split; [reflexivity|]. auto 10.
-  - intros H1 H2. inj H1. inj H2. eexists. split; [reflexivity|]. auto 10.
+  - cbv zeta. intros H1 H2. inj H1. inj H2. eexists. split; [reflexivity|]. prj. auto 10.
 Qed.
 
 (** user and helper-task actions never remove a table entry, never release a number and never
